@@ -392,6 +392,275 @@ fn check_relay(case: &RelayCase, st: &mut Stats) -> Result<(), String> {
     })
 }
 
+// ---------------------------------------------------------------------------------------------
+// (d) admission: the real per-connection handlers of a node (`run_inbound_stream` / `run_outbound_stream` of the gossip
+// and the validator network) with honest and dishonest peers connecting, dialling back and disconnecting
+
+#[derive(Debug, Clone, Serialize, Deserialize, Hash, PartialEq)]
+pub enum AdmOp {
+    /// Identity `id` connects to the node and proves `id`.
+    In { id: usize },
+    /// The node dials identity `id`; the peer that answers proves `answer_as`.
+    Out { id: usize, answer_as: usize },
+    /// The peer end of the k-th still open connection is closed.
+    Close { k: usize },
+}
+
+#[derive(Debug, Clone, Serialize, Deserialize, Hash)]
+pub struct AdmCase {
+    /// Validator network (committee = identities 0..3, identities 3..5 are outsiders) or gossip network.
+    consensus: bool,
+    /// Gossip: identities configured as static inbound peers.
+    static_inbound: Vec<usize>,
+    /// Gossip: identities configured as static outbound peers (the only ones the outbound pool admits).
+    static_outbound: Vec<usize>,
+    dynamic_inbound_limit: usize,
+    ops: Vec<AdmOp>,
+}
+
+const ADM_IDS: usize = 5;
+
+pub fn gen_adm(ch: &mut Choices) -> AdmCase {
+    let n = 2 + ch.below(7);
+    let mut ops = vec![];
+    for _ in 0..n {
+        ops.push(match ch.below(8) {
+            0..=3 => AdmOp::In { id: ch.below(ADM_IDS) },
+            4 | 5 => {
+                let id = ch.below(ADM_IDS);
+                AdmOp::Out { id, answer_as: if ch.chance(3, 4) { id } else { ch.below(ADM_IDS) } }
+            }
+            _ => AdmOp::Close { k: ch.below(4) },
+        });
+    }
+    AdmCase {
+        consensus: ch.chance(2, 5),
+        static_inbound: (0..ADM_IDS).filter(|_| ch.chance(1, 3)).collect(),
+        static_outbound: (0..ADM_IDS).filter(|_| ch.chance(3, 4)).collect(),
+        dynamic_inbound_limit: ch.below(3),
+        ops,
+    }
+}
+
+/// Result of starting a connection: the node's handler ended (with this error text, or cleanly) or it is serving.
+#[derive(Debug, PartialEq)]
+enum Started {
+    Serving,
+    Ended(Result<(), String>),
+}
+
+pub fn check_adm(case: &AdmCase, st: &mut Stats) -> Result<(), String> {
+    use rand::SeedableRng as _;
+    use std::sync::{Arc, Mutex};
+    use zksync_concurrency::scope;
+    let rt = rt();
+    rt.block_on(async {
+        let ctx = &ctx::root();
+        let setup = validator::testonly::Setup::new(&mut rand::rngs::StdRng::seed_from_u64(7), 3);
+        let nk = gen::node_keys();
+        // validator identities: the committee, then outsiders
+        let mut vks: Vec<validator::SecretKey> = setup.validator_keys.clone();
+        vks.extend(gen::val_keys().iter().take(ADM_IDS - 3).cloned());
+        let me_node = &nk[9];
+        let me_val = gen::val_keys()[10].clone();
+        let mut cfg = gossip_cfg(me_node);
+        cfg.gossip.dynamic_inbound_limit = case.dynamic_inbound_limit;
+        cfg.gossip.static_inbound = case.static_inbound.iter().map(|i| nk[*i].public()).collect();
+        let listener_addrs: Arc<Mutex<BTreeMap<usize, std::net::SocketAddr>>> = Arc::default();
+        cfg.gossip.static_outbound = case.static_outbound.iter().map(|i| (nk[*i].public(), net::Host("127.0.0.1:1".into()))).collect();
+        // the node itself need not be a committee member to run the validator network handlers; it needs a validator key
+        cfg.validator_key = Some(me_val.clone());
+        let genesis = setup.genesis.hash();
+        let (setup, cfg, nk, vks, listener_addrs, me_val) = (&setup, &cfg, &nk, &vks, &listener_addrs, &me_val);
+        let st2 = &mut *st;
+        let res: Result<(), String> = scope::run!(ctx, |ctx, s| async move {
+            let st = st2;
+            let engine = zksync_consensus_engine::testonly::in_memory::Engine::new_random(setup, setup.first_block());
+            let (mgr, runner) = zksync_consensus_engine::EngineManager::new(ctx, Box::new(engine), zksync_concurrency::time::Duration::seconds(60))
+                .await
+                .map_err(|e| format!("INFRA: EngineManager::new: {e:?}"))?;
+            s.spawn_bg(async { runner.run(ctx).await.map_err(|e| format!("INFRA: engine runner: {e:#}")) });
+            let gossip = Arc::new(hook::gossip::Node::new(cfg.clone(), mgr, Some(setup.epoch)));
+            let cons = Arc::new(hook::consensus::Node::new(&gossip).map_err(|e| format!("INFRA: consensus::Node::new: {e:#}"))?.ok_or("INFRA: no validator network")?);
+            // model: per direction, identity -> connection number
+            let mut model_in: BTreeMap<usize, usize> = BTreeMap::new();
+            let mut model_out: BTreeMap<usize, usize> = BTreeMap::new();
+            // open connections: (number, inbound?, identity, peer end kept open, handler outcome slot)
+            struct Open {
+                inbound: bool,
+                id: usize,
+                peer: Option<NoiseTcp>,
+                outcome: Arc<Mutex<Option<Result<(), String>>>>,
+            }
+            let mut open: Vec<Open> = vec![];
+            let pool_ids = |inbound: bool| -> Vec<usize> {
+                let mut v: Vec<usize> = if case.consensus {
+                    let ks = if inbound { cons.inbound() } else { cons.outbound() };
+                    ks.iter().filter_map(|k| vks.iter().position(|x| &x.public() == k)).collect()
+                } else {
+                    let ks = if inbound { gossip.inbound() } else { gossip.outbound() };
+                    ks.iter().filter_map(|k| nk.iter().position(|x| &x.public() == k)).collect()
+                };
+                v.sort();
+                v
+            };
+            // waits (real time, bounded) until the handler has ended or the identity shows up in the pool
+            async fn settle(outcome: &Arc<Mutex<Option<Result<(), String>>>>, admitted: impl Fn() -> bool) -> Result<Started, String> {
+                for _ in 0..3000 {
+                    if let Some(r) = outcome.lock().unwrap().clone() {
+                        return Ok(Started::Ended(r));
+                    }
+                    if admitted() {
+                        // give a refusal that is already on its way the chance to land first
+                        tokio::time::sleep(std::time::Duration::from_millis(3)).await;
+                        if let Some(r) = outcome.lock().unwrap().clone() {
+                            return Ok(Started::Ended(r));
+                        }
+                        return Ok(Started::Serving);
+                    }
+                    tokio::time::sleep(std::time::Duration::from_millis(2)).await;
+                }
+                Err("INFRA: a connection attempt neither ended nor was admitted within 6 s".into())
+            }
+            for (step, op) in case.ops.iter().enumerate() {
+                if std::env::var("VERIF_TRACE").is_ok() {
+                    eprintln!("step {step} {op:?} in={:?} out={:?}", pool_ids(true), pool_ids(false));
+                }
+                match op {
+                    AdmOp::In { id } => {
+                        let before = pool_ids(true);
+                        let (a, b) = noise_pair(ctx).await?;
+                        let outcome: Arc<Mutex<Option<Result<(), String>>>> = Arc::default();
+                        let (o2, g2, c2) = (outcome.clone(), gossip.clone(), cons.clone());
+                        let consensus = case.consensus;
+                        s.spawn_bg(async move {
+                            let r = if consensus { c2.run_inbound_stream(ctx, b).await } else { g2.run_inbound_stream(ctx, b).await };
+                            *o2.lock().unwrap() = Some(r.map_err(|e| format!("{e:#}")));
+                            Ok(())
+                        });
+                        // the peer: an honest handshake as identity `id`
+                        let mut a = a;
+                        let hs = if case.consensus {
+                            hook::consensus::handshake_outbound(ctx, &vks[*id], genesis, &mut a, &me_val.public()).await.map(|_| ())
+                        } else {
+                            let pcfg = gossip_cfg(&nk[*id]);
+                            hook::gossip::handshake_outbound(ctx, &pcfg, genesis, &mut a, &me_node.public()).await.map(|_| ())
+                        };
+                        let member = !case.consensus || *id < 3;
+                        let is_static = case.static_inbound.contains(id);
+                        let extras = model_in.keys().filter(|k| !case.consensus && !case.static_inbound.contains(k)).count();
+                        let expect_admit = member && !model_in.contains_key(id) && (case.consensus || is_static || extras < case.dynamic_inbound_limit);
+                        let started = settle(&outcome, || pool_ids(true).contains(id) && !before.contains(id)).await?;
+                        // a duplicate is "admitted()" trivially never (it was there before): it must end
+                        match (&started, expect_admit) {
+                            (Started::Serving, true) => {
+                                model_in.insert(*id, open.len());
+                                open.push(Open { inbound: true, id: *id, peer: Some(a), outcome });
+                            }
+                            (Started::Ended(Err(_)), false) => {
+                                st.class(if model_in.contains_key(id) { "duplicate_inbound_refused" } else if !member { "non_member_refused" } else { "over_quota_refused" });
+                                drop(a);
+                            }
+                            (Started::Serving, false) => {
+                                return Err(format!("step {step} {op:?}: the connection was admitted; expected a refusal (already connected: {}, member: {member}, static: {is_static}, non-configured peers connected: {extras} of {})", model_in.contains_key(id), case.dynamic_inbound_limit));
+                            }
+                            (Started::Ended(r), true) => {
+                                return Err(format!("step {step} {op:?}: an honest, expected peer was not admitted: handler ended with {r:?} (peer handshake: {hs:?})"));
+                            }
+                            (Started::Ended(Ok(())), false) => drop(a),
+                        }
+                    }
+                    AdmOp::Out { id, answer_as } => {
+                        let before = pool_ids(false);
+                        let mut l = hook::TcpListener::bind().await.map_err(|e| format!("INFRA: bind: {e:#}"))?;
+                        let addr = l.addr();
+                        listener_addrs.lock().unwrap().insert(*id, addr);
+                        let outcome: Arc<Mutex<Option<Result<(), String>>>> = Arc::default();
+                        let (o2, g2, c2) = (outcome.clone(), gossip.clone(), cons.clone());
+                        let consensus = case.consensus;
+                        let (peer_node, peer_val) = (nk[*id].public(), vks[*id].public());
+                        s.spawn_bg(async move {
+                            let r = if consensus { c2.run_outbound_stream(ctx, &peer_val, addr).await } else { g2.run_outbound_stream(ctx, &peer_node, addr).await };
+                            *o2.lock().unwrap() = Some(r.map_err(|e| format!("{e:#}")));
+                            Ok(())
+                        });
+                        // the peer: accepts, runs the real preface and an honest inbound handshake as `answer_as`
+                        let tcp = match ctx.wait(l.accept(&ctx.with_timeout(zksync_concurrency::time::Duration::seconds(6)))).await {
+                            Ok(Ok(t)) => t,
+                            _ => return Err("INFRA: the node did not dial within 6 s".into()),
+                        };
+                        let (mut peer, _is_consensus) = NoiseTcp::preface_accept(ctx, tcp).await.map_err(|e| format!("INFRA: preface: {e:?}"))?;
+                        let _hs = if case.consensus {
+                            hook::consensus::handshake_inbound(ctx, &vks[*answer_as], genesis, &mut peer).await.map(|_| ())
+                        } else {
+                            let pcfg = gossip_cfg(&nk[*answer_as]);
+                            hook::gossip::handshake_inbound(ctx, &pcfg, genesis, &mut peer).await.map(|_| ())
+                        };
+                        let allowed = if case.consensus { *id < 3 } else { case.static_outbound.contains(id) };
+                        let expect_admit = allowed && answer_as == id && !model_out.contains_key(id);
+                        let started = settle(&outcome, || pool_ids(false).contains(id) && !before.contains(id)).await?;
+                        match (&started, expect_admit) {
+                            (Started::Serving, true) => {
+                                model_out.insert(*id, open.len());
+                                open.push(Open { inbound: false, id: *id, peer: Some(peer), outcome });
+                            }
+                            (Started::Ended(Err(_)), false) => {
+                                st.class(if answer_as != id { "wrong_peer_answered_refused" } else if model_out.contains_key(id) { "duplicate_outbound_refused" } else { "not_allowed_outbound_refused" });
+                                drop(peer);
+                            }
+                            (Started::Serving, false) => {
+                                return Err(format!("step {step} {op:?}: the outbound connection was admitted; expected a refusal (dialled {id}, answered by {answer_as}, allowed: {allowed}, already connected: {})", model_out.contains_key(id)));
+                            }
+                            (Started::Ended(r), true) => return Err(format!("step {step} {op:?}: an honest, expected peer was not admitted: handler ended with {r:?}")),
+                            (Started::Ended(Ok(())), false) => drop(peer),
+                        }
+                    }
+                    AdmOp::Close { k } => {
+                        let live: Vec<usize> = open.iter().enumerate().filter(|(_, o)| o.peer.is_some()).map(|(i, _)| i).collect();
+                        if live.is_empty() {
+                            continue;
+                        }
+                        let i = live[k % live.len()];
+                        open[i].peer = None; // drops the peer end: RST
+                        let (inbound, id) = (open[i].inbound, open[i].id);
+                        let started = settle(&open[i].outcome, || false).await;
+                        if !matches!(started, Ok(Started::Ended(_))) {
+                            return Err("INFRA: the node did not notice a closed connection within 6 s".into());
+                        }
+                        if inbound { model_in.remove(&id) } else { model_out.remove(&id) };
+                        st.class("closed_then_slot_released");
+                    }
+                }
+                // the pools must hold exactly the admitted, still open connections (one per identity and direction)
+                for (inbound, model) in [(true, &model_in), (false, &model_out)] {
+                    let want: Vec<usize> = model.keys().copied().collect();
+                    let mut got = pool_ids(inbound);
+                    if got != want {
+                        // the removal of a just-ended handler may still be in flight: re-read once after a short wait
+                        tokio::time::sleep(std::time::Duration::from_millis(20)).await;
+                        got = pool_ids(inbound);
+                    }
+                    if got != want {
+                        return Err(format!("step {step} {op:?}: the {} pool holds identities {got:?}, the open admitted connections are {want:?}", if inbound { "inbound" } else { "outbound" }));
+                    }
+                }
+            }
+            if case.ops.iter().filter(|o| matches!(o, AdmOp::In { .. })).count() >= 2 {
+                let ids: Vec<usize> = case.ops.iter().filter_map(|o| if let AdmOp::In { id } = o { Some(*id) } else { None }).collect();
+                let dup = ids.iter().enumerate().any(|(i, x)| ids[..i].contains(x));
+                if dup {
+                    st.nontrivial(common::fingerprint(case));
+                }
+            }
+            drop(open);
+            Ok(())
+        })
+        .await;
+        st.sample(|| serde_json::to_value(case).unwrap());
+        res
+    })
+}
+
 pub fn main(env: &Env) -> i32 {
     if let Mode::Replay(path) = env.mode() {
         let (part, case) = Env::read_replay(&path);
@@ -399,6 +668,7 @@ pub fn main(env: &Env) -> i32 {
             "pool" => common::replay_case::<PoolCase>(case, check_pool),
             "handshake" => common::replay_case::<HsCase>(case, check_hs),
             "relay" => common::replay_case::<RelayCase>(case, check_relay),
+            "admission" => common::replay_case::<AdmCase>(case, check_adm),
             p => Err(format!("unknown part {p}")),
         };
         return env.finish_replay(&path, r);
@@ -422,6 +692,16 @@ pub fn main(env: &Env) -> i32 {
         PartOpts { cases: env.tier.pick(64, 1_000), max_shrink_iters: 10, samples: 2 },
         || (any::<bool>(), any::<bool>()).prop_map(|(consensus, both_directions)| RelayCase { consensus, both_directions }),
         check_relay,
+    ));
+    parts.extend(common::run_regress::<AdmCase>(env, "admission", check_adm));
+    parts.push(run_proptest(
+        env,
+        "admission",
+        "the real per-connection handlers of a node (gossip / validator network run_inbound_stream and run_outbound_stream: preface, handshake, pool admission, service loop, release) over loopback TCP: 2-8 operations {identity i connects and proves i; the node dials i and a peer proving j answers; a peer closes}, gossip with generated static inbound / outbound sets and a quota of 0-2 non-configured peers, validator network with a 3-member committee and 2 outsiders; \
+         oracle after every operation: the handler serves iff the model admits (member, dialled = proven, not yet connected in that direction, quota), a refused attempt ends with an error, and each pool holds exactly the admitted connections that are still open (a refused duplicate must not release or replace the slot of the live one). Non-trivial = the same identity connects twice",
+        PartOpts { cases: env.tier.pick(2_000, 40_000), max_shrink_iters: 200, samples: 2 },
+        || Choices::strategy(60).prop_map(|mut ch| gen_adm(&mut ch)),
+        check_adm,
     ));
     parts.push(run_proptest(
         env,
